@@ -162,6 +162,10 @@ func genZone(r *rand.Rand, name string, configs [][]byte, small bool) ZoneSpec {
 	default:
 		n = 61 + r.IntN(10)
 	}
+	if !small && r.IntN(40) == 0 {
+		// a big zone: more than ten listing pages
+		n = []int{200, 201, 205, 260, 450}[r.IntN(5)]
+	}
 	if small && n > 45 {
 		n = 21 + r.IntN(24)
 	}
@@ -179,6 +183,10 @@ func genZone(r *rand.Rand, name string, configs [][]byte, small bool) ZoneSpec {
 		}
 		used[nm] = true
 		rec := RecSpec{ID: hexID(r), Name: nm, Type: "HTTPS", TTL: []int{1, 60, 300, 3600}[r.IntN(4)], Priority: 1 + r.IntN(3), Target: ".", Value: genValue(r, configs)}
+		if r.IntN(12) == 0 {
+			// SvcPriority is an unsigned 16-bit number
+			rec.Priority = []int{255, 256, 32767, 32768, 40000, 65535}[r.IntN(6)]
+		}
 		if r.IntN(6) == 0 {
 			rec.Target = "svc." + name
 		}
